@@ -57,7 +57,7 @@ fn main() {
     jjv::run("C20", "C20", |ctx| {
         dagrepo::use_scratch(&ctx.scratch);
         let settings = dagrepo::settings();
-        for i in ctx.indices() {
+        let results = dagrepo::par_cases(&*ctx, |ctx, i| -> dagrepo::CaseOut {
             let mut rng = ctx.rng(i);
             let thorough = ctx.tier == "thorough";
             let n = if rng.chance(1, 12) {
@@ -346,13 +346,26 @@ fn main() {
                         if dis { "disambig " } else { "" },
                         if names { "refs" } else { "" }
                     );
-                    ctx.emit(i, term, total >= 8 && nq >= 20, shape_s.trim());
+                    dagrepo::CaseOut {
+                        term,
+                        nontrivial: total >= 8 && nq >= 20,
+                        shape: shape_s.trim().to_string(),
+                        panicked: false,
+                    }
                 }
-                None => {
-                    ctx.panicked();
-                    ctx.emit(i, "(mk_case [] [] None None [] true)".to_string(), false, "panic");
-                }
+                None => dagrepo::CaseOut {
+                    term: "(mk_case [] [] None None [] true)".to_string(),
+                    nontrivial: false,
+                    shape: "panic".to_string(),
+                    panicked: true,
+                },
             }
+        });
+        for (i, r) in results {
+            if r.panicked {
+                ctx.panicked();
+            }
+            ctx.emit(i, r.term, r.nontrivial, &r.shape);
         }
     });
 }
